@@ -173,6 +173,10 @@ def check(case, ctx):
                                 detail="field-named-ts" if "ts" in orig else "plain")
             if out._desc.name != spec["desc"][0]:
                 raise Violation("timestamps/name", "name %r" % out._desc.name)
+            for m in ("_source", "_classification", "_generated"):
+                if observe(getattr(out, m)) != observe(getattr(rec, m)):
+                    raise Violation("timestamps/metadata", "%s of the per-timestamp record is %r, the original's is %r"
+                                    % (m, getattr(out, m), getattr(rec, m)), detail=m)
             onames = [n for _, n in out._desc.get_field_tuples()]
             if onames[:2] != ["ts", "ts_description"]:
                 raise Violation("timestamps/field-order", "fields %r" % onames)
